@@ -97,3 +97,71 @@ func (v *VerifRS) State() (map[string]codec.Value, []codec.Value, uint, int, int
 	}
 	return m, c, v.rs.version, len(v.rs.subs), v.e.count
 }
+
+// VerifES drives the task queue and the query-event lock of one real EventSubscription without cache
+// workers: the harness decides when a worker picks the entry from the work channel.
+type VerifES struct {
+	c   *Cache
+	e   *EventSubscription
+	Ran []string
+}
+
+// NewVerifES creates an entry whose cache has no workers.
+func NewVerifES() *VerifES {
+	v := &VerifES{}
+	v.c = NewCache(nil, 0, 0, 1<<40, verifNopLogger{}, nil)
+	v.c.eventSubs = make(map[string]*EventSubscription)
+	v.c.inCh = make(chan *EventSubscription, 1000)
+	v.e = &EventSubscription{ResourceName: "test.es", cache: v.c, count: 1}
+	return v
+}
+
+type verifNopLogger struct{}
+
+func (verifNopLogger) Log(s string)   {}
+func (verifNopLogger) Error(s string) {}
+func (verifNopLogger) Debug(s string) {}
+func (verifNopLogger) Trace(s string) {}
+func (verifNopLogger) IsDebug() bool  { return false }
+func (verifNopLogger) IsTrace() bool  { return false }
+
+// Enqueue queues a plain task.
+func (v *VerifES) Enqueue(id string) {
+	v.e.Enqueue(func() { v.Ran = append(v.Ran, "q"+id) })
+}
+
+// EnqueueLocking queues a task that locks the queue for n unlock callbacks, as a query event does.
+func (v *VerifES) EnqueueLocking(id string, n int) {
+	v.e.Enqueue(func() {
+		v.Ran = append(v.Ran, "Q"+id)
+		v.e.lockEvents(n)
+	})
+}
+
+// Unlock hands in one unlock callback, as the answer to a query request does.
+func (v *VerifES) Unlock(id string) {
+	v.e.enqueueUnlock(func() { v.Ran = append(v.Ran, "l"+id) })
+}
+
+// Work lets a worker take one entry from the work channel, if there is one.
+func (v *VerifES) Work() bool {
+	select {
+	case e := <-v.c.inCh:
+		e.processQueue()
+		return true
+	default:
+		return false
+	}
+}
+
+// State returns the queue length, the number of pending unlock callbacks, the lock capacity
+// (-1: no lock) and the number of wake-ups waiting in the work channel.
+func (v *VerifES) State() (int, int, int, int) {
+	v.e.mu.Lock()
+	defer v.e.mu.Unlock()
+	lc := -1
+	if v.e.locks != nil {
+		lc = cap(v.e.locks)
+	}
+	return len(v.e.queue), len(v.e.locks), lc, len(v.c.inCh)
+}
